@@ -1,4 +1,971 @@
-//! C17 (to be filled in)
-pub fn main(_seed: u64, _n: usize) {
-    println!("SUMMARY histories=0 failures=0");
+//! C17: an interpolator is immutable — answers do not depend on history or concurrency.
+//!
+//! For every history a random interpolator configuration and a random list of operations
+//! (all entry points, good and bad queries, rejected buffers) is generated. Every operation is
+//! first answered by a FRESH interpolator (no history at all); then one interpolator object
+//! replays the list in order (A), permuted (B) and split over concurrently running threads (C).
+//! Every answer must be bit-identical to the reference answer.
+
+use std::panic::{catch_unwind, AssertUnwindSafe};
+use std::sync::Barrier;
+
+use ndarray::{
+    ArcArray, ArcArray1, Array, Array1, ArrayBase, ArrayD, Data, Dimension, Ix1, Ix2, Ix3, IxDyn,
+    OwnedArcRepr, OwnedRepr, ViewRepr,
+};
+use ndarray_interp::interp1d::cubic_spline::{
+    BoundaryCondition, CubicSpline, CubicSplineStrategy, RowBoundary, SingleBoundary,
+};
+use ndarray_interp::interp1d::{Interp1D, Interp1DBuilder, Interp1DStrategy, Linear};
+use ndarray_interp::interp2d::{Bilinear, Interp2D, Interp2DBuilder};
+use ndarray_interp::InterpolateError;
+
+// ---------------------------------------------------------------------------------------------
+// PRNG
+
+/// splitmix64: the single source of randomness of this check
+struct Rng(u64);
+
+impl Rng {
+    fn next(&mut self) -> u64 {
+        self.0 = self.0.wrapping_add(0x9E37_79B9_7F4A_7C15);
+        let mut z = self.0;
+        z = (z ^ (z >> 30)).wrapping_mul(0xBF58_476D_1CE4_E5B9);
+        z = (z ^ (z >> 27)).wrapping_mul(0x94D0_49BB_1331_11EB);
+        z ^ (z >> 31)
+    }
+    fn below(&mut self, n: usize) -> usize {
+        (self.next() % n as u64) as usize
+    }
+    /// inclusive range
+    fn range(&mut self, lo: usize, hi: usize) -> usize {
+        lo + self.below(hi - lo + 1)
+    }
+    fn unit(&mut self) -> f64 {
+        (self.next() >> 11) as f64 / (1u64 << 53) as f64
+    }
+    fn uniform(&mut self, lo: f64, hi: f64) -> f64 {
+        lo + (hi - lo) * self.unit()
+    }
+    fn chance(&mut self, p: f64) -> bool {
+        self.unit() < p
+    }
+}
+
+// ---------------------------------------------------------------------------------------------
+// compile-time assertions: interpolators over thread-safe storage are Send + Sync
+
+fn assert_send_sync<T: Send + Sync>() {}
+
+macro_rules! assert_interpolators_send_sync {
+    ($($repr:ty),* $(,)?) => {$(
+        assert_send_sync::<Interp1D<$repr, $repr, Ix1, Linear>>();
+        assert_send_sync::<Interp1D<$repr, $repr, Ix2, Linear>>();
+        assert_send_sync::<Interp1D<$repr, $repr, IxDyn, Linear>>();
+        assert_send_sync::<Interp1D<$repr, $repr, Ix1, CubicSplineStrategy<$repr, Ix1>>>();
+        assert_send_sync::<Interp1D<$repr, $repr, Ix2, CubicSplineStrategy<$repr, Ix2>>>();
+        assert_send_sync::<Interp1D<$repr, $repr, IxDyn, CubicSplineStrategy<$repr, IxDyn>>>();
+        assert_send_sync::<Interp2D<$repr, $repr, $repr, Ix2, Bilinear>>();
+        assert_send_sync::<Interp2D<$repr, $repr, $repr, Ix3, Bilinear>>();
+        assert_send_sync::<Interp2D<$repr, $repr, $repr, IxDyn, Bilinear>>();
+    )*};
+}
+
+/// these only have to compile
+fn static_assertions() {
+    assert_interpolators_send_sync!(OwnedRepr<f64>, ViewRepr<&'static f64>, OwnedArcRepr<f64>);
+}
+
+// ---------------------------------------------------------------------------------------------
+// configuration of one interpolator
+
+#[derive(Clone, Copy, PartialEq, Eq)]
+enum Boundary {
+    NotAKnot,
+    Natural,
+    Clamped,
+    Periodic,
+    Individual,
+}
+
+#[derive(Clone, Copy, PartialEq, Eq)]
+enum Kind {
+    Linear,
+    Spline(Boundary),
+    Bilinear,
+}
+
+/// Everything needed to build the interpolator again and again.
+/// The arrays are shared masters: `shared` interpolators hold clones of them (same memory,
+/// reference counted across all fresh reference interpolators and threads), `owned` ones copy.
+struct Config {
+    kind: Kind,
+    extrapolate: bool,
+    shared: bool,
+    x: ArcArray1<f64>,
+    /// empty for 1-D interpolators
+    y: ArcArray1<f64>,
+    data: ArcArray<f64, IxDyn>,
+    /// per-lane boundaries (shape `[1, trailing..]`), only used by `Boundary::Individual`
+    bounds: ArrayD<RowBoundary<f64>>,
+}
+
+impl Config {
+    fn interp_axes(&self) -> usize {
+        if self.kind == Kind::Bilinear {
+            2
+        } else {
+            1
+        }
+    }
+    fn trailing(&self) -> &[usize] {
+        &self.data.shape()[self.interp_axes()..]
+    }
+    fn has_scalar(&self) -> bool {
+        self.data.ndim() == self.interp_axes()
+    }
+    fn describe(&self) -> String {
+        let name = match self.kind {
+            Kind::Linear => "linear",
+            Kind::Spline(Boundary::NotAKnot) => "spline-notaknot",
+            Kind::Spline(Boundary::Natural) => "spline-natural",
+            Kind::Spline(Boundary::Clamped) => "spline-clamped",
+            Kind::Spline(Boundary::Periodic) => "spline-periodic",
+            Kind::Spline(Boundary::Individual) => "spline-individual",
+            Kind::Bilinear => "bilinear",
+        };
+        let extrap = if self.extrapolate { "extrap" } else { "noextrap" };
+        format!("{name}/{extrap}/{}", fmt_shape(self.data.shape()))
+    }
+}
+
+fn gen_axis(rng: &mut Rng, len: usize) -> ArcArray1<f64> {
+    let mut v = Vec::with_capacity(len);
+    let mut cur = rng.uniform(-5.0, 5.0);
+    for _ in 0..len {
+        v.push(cur);
+        cur += rng.uniform(0.1, 2.0);
+    }
+    Array1::from(v).into_shared()
+}
+
+fn gen_single_boundary(rng: &mut Rng) -> SingleBoundary<f64> {
+    match rng.below(5) {
+        0 => SingleBoundary::NotAKnot,
+        1 => SingleBoundary::Natural,
+        2 => SingleBoundary::Clamped,
+        3 => SingleBoundary::FirstDeriv(rng.uniform(-2.0, 2.0)),
+        _ => SingleBoundary::SecondDeriv(rng.uniform(-2.0, 2.0)),
+    }
+}
+
+fn gen_row_boundary(rng: &mut Rng) -> RowBoundary<f64> {
+    match rng.below(6) {
+        0 => RowBoundary::NotAKnot,
+        1 => RowBoundary::Natural,
+        2 => RowBoundary::Clamped,
+        _ => RowBoundary::Mixed {
+            left: gen_single_boundary(rng),
+            right: gen_single_boundary(rng),
+        },
+    }
+}
+
+fn gen_config(rng: &mut Rng) -> Config {
+    let kind = match rng.below(8) {
+        0 | 1 => Kind::Linear,
+        2 | 3 => Kind::Bilinear,
+        _ => Kind::Spline(match rng.below(5) {
+            0 => Boundary::NotAKnot,
+            1 => Boundary::Natural,
+            2 => Boundary::Clamped,
+            3 => Boundary::Periodic,
+            _ => Boundary::Individual,
+        }),
+    };
+    let extrapolate = rng.chance(0.5);
+    let shared = rng.chance(0.5);
+    let x_len = rng.range(3, 8);
+    let x = gen_axis(rng, x_len);
+    let y = if kind == Kind::Bilinear {
+        let y_len = rng.range(3, 8);
+        gen_axis(rng, y_len)
+    } else {
+        Array1::from(Vec::new()).into_shared()
+    };
+    let mut shape = vec![x.len()];
+    if kind == Kind::Bilinear {
+        shape.push(y.len());
+    }
+    let lead = shape.len();
+    for _ in 0..rng.below(3) {
+        shape.push(rng.range(1, 3));
+    }
+    let total: usize = shape.iter().product();
+    let values: Vec<f64> = (0..total).map(|_| rng.uniform(-10.0, 10.0)).collect();
+    let mut data = ArrayD::from_shape_vec(IxDyn(&shape), values).expect("data shape");
+    if kind == Kind::Spline(Boundary::Periodic) {
+        let first = data.index_axis(ndarray::Axis(0), 0).to_owned();
+        data.index_axis_mut(ndarray::Axis(0), shape[0] - 1).assign(&first);
+    }
+    let mut bshape = vec![1];
+    bshape.extend_from_slice(&shape[lead..]);
+    let lanes: usize = bshape.iter().product();
+    let bounds = if kind == Kind::Spline(Boundary::Individual) {
+        let rows: Vec<RowBoundary<f64>> = (0..lanes).map(|_| gen_row_boundary(rng)).collect();
+        ArrayD::from_shape_vec(IxDyn(&bshape), rows).expect("bounds shape")
+    } else {
+        ArrayD::from_elem(IxDyn(&bshape), RowBoundary::NotAKnot)
+    };
+    Config {
+        kind,
+        extrapolate,
+        shared,
+        x,
+        y,
+        data: data.into_shared(),
+        bounds,
+    }
+}
+
+// ---------------------------------------------------------------------------------------------
+// operations and answers
+
+#[derive(Clone, Copy, PartialEq, Eq, Debug)]
+enum Entry {
+    Scalar,
+    Interp,
+    InterpInto,
+    Array,
+    ArrayIx1,
+    ArrayInto,
+    ArrayIntoIx1,
+}
+
+impl Entry {
+    fn name(self) -> &'static str {
+        match self {
+            Entry::Scalar => "interp_scalar",
+            Entry::Interp => "interp",
+            Entry::InterpInto => "interp_into",
+            Entry::Array => "interp_array",
+            Entry::ArrayIx1 => "interp_array_ix1",
+            Entry::ArrayInto => "interp_array_into",
+            Entry::ArrayIntoIx1 => "interp_array_into_ix1",
+        }
+    }
+    fn takes_buffer(self) -> bool {
+        matches!(
+            self,
+            Entry::InterpInto | Entry::ArrayInto | Entry::ArrayIntoIx1
+        )
+    }
+    fn is_single(self) -> bool {
+        matches!(self, Entry::Scalar | Entry::Interp | Entry::InterpInto)
+    }
+}
+
+struct Op {
+    entry: Entry,
+    /// shape of the query array (empty for single queries and rank-0 query arrays)
+    qshape: Vec<usize>,
+    qx: Vec<f64>,
+    /// same length as `qx` for 2-D interpolators, empty otherwise
+    qy: Vec<f64>,
+    /// shape of the buffer handed to `*_into`
+    buf: Vec<usize>,
+    wrong_buf: bool,
+}
+
+impl Op {
+    fn describe(&self, idx: usize) -> String {
+        let hex = |v: &[f64]| {
+            v.iter()
+                .map(|q| format!("{:016x}", q.to_bits()))
+                .collect::<Vec<_>>()
+                .join(",")
+        };
+        let mut s = format!("{idx}:{}[", self.entry.name());
+        if !self.entry.is_single() {
+            s.push_str(&format!("qshape={};", fmt_shape(&self.qshape)));
+        }
+        s.push_str(&format!("x={}", hex(&self.qx)));
+        if !self.qy.is_empty() || self.qx.is_empty() {
+            s.push_str(&format!(";y={}", hex(&self.qy)));
+        }
+        if self.entry.takes_buffer() {
+            let tag = if self.wrong_buf { "wrongbuf" } else { "buf" };
+            s.push_str(&format!(";{tag}={}", fmt_shape(&self.buf)));
+        }
+        s.push(']');
+        s
+    }
+}
+
+#[derive(Clone, PartialEq, Eq)]
+enum Answer {
+    /// shape and bit patterns of all result values in logical order
+    Ok { shape: Vec<usize>, bits: Vec<u64> },
+    /// `OutOfBounds` with its message; for `*_into` calls also the state the buffer was left in
+    Err { msg: String, buf: Vec<u64> },
+    /// the call panicked (message of the panic)
+    Panic(String),
+}
+
+impl Answer {
+    fn show(&self) -> String {
+        let hex = |b: &[u64]| {
+            b.iter()
+                .map(|v| format!("{v:016x}"))
+                .collect::<Vec<_>>()
+                .join(",")
+        };
+        match self {
+            Answer::Ok { shape, bits } => format!("ok[{}:{}]", fmt_shape(shape), hex(bits)),
+            Answer::Err { msg, buf } => {
+                format!("err[{}:{}]", msg.replace(char::is_whitespace, "_"), hex(buf))
+            }
+            Answer::Panic(msg) => format!("panic[{}]", msg.replace(char::is_whitespace, "_")),
+        }
+    }
+}
+
+fn fmt_shape(shape: &[usize]) -> String {
+    if shape.is_empty() {
+        "scalar".into()
+    } else {
+        shape
+            .iter()
+            .map(|n| n.to_string())
+            .collect::<Vec<_>>()
+            .join("x")
+    }
+}
+
+const POISON: u64 = 0x7ff8_dead_beef_0001;
+
+fn poisoned(shape: &[usize]) -> ArrayD<f64> {
+    ArrayD::from_elem(IxDyn(shape), f64::from_bits(POISON))
+}
+
+fn bits_of<D: Dimension>(a: &Array<f64, D>) -> Vec<u64> {
+    a.iter().map(|v| v.to_bits()).collect()
+}
+
+fn oob(e: InterpolateError, buf: Vec<u64>) -> Answer {
+    match e {
+        InterpolateError::OutOfBounds(msg) => Answer::Err { msg, buf },
+    }
+}
+
+fn from_value(r: Result<f64, InterpolateError>) -> Answer {
+    match r {
+        Ok(v) => Answer::Ok {
+            shape: Vec::new(),
+            bits: vec![v.to_bits()],
+        },
+        Err(e) => oob(e, Vec::new()),
+    }
+}
+
+fn from_array<D: Dimension>(r: Result<Array<f64, D>, InterpolateError>) -> Answer {
+    match r {
+        Ok(a) => Answer::Ok {
+            shape: a.shape().to_vec(),
+            bits: bits_of(&a),
+        },
+        Err(e) => oob(e, Vec::new()),
+    }
+}
+
+fn from_buffer(r: Result<(), InterpolateError>, buf: &ArrayD<f64>) -> Answer {
+    match r {
+        Ok(()) => Answer::Ok {
+            shape: buf.shape().to_vec(),
+            bits: bits_of(buf),
+        },
+        Err(e) => oob(e, bits_of(buf)),
+    }
+}
+
+fn capture(f: impl FnOnce() -> Answer) -> Answer {
+    match catch_unwind(AssertUnwindSafe(f)) {
+        Ok(a) => a,
+        Err(payload) => {
+            let msg = if let Some(s) = payload.downcast_ref::<String>() {
+                s.clone()
+            } else if let Some(s) = payload.downcast_ref::<&str>() {
+                (*s).to_string()
+            } else {
+                "<non-string panic payload>".to_string()
+            };
+            Answer::Panic(msg)
+        }
+    }
+}
+
+fn dyn_query(shape: &[usize], values: &[f64]) -> ArrayD<f64> {
+    ArrayD::from_shape_vec(IxDyn(shape), values.to_vec()).expect("query shape")
+}
+
+// ---------------------------------------------------------------------------------------------
+// storage flavours and subjects under test
+
+trait Store: Data<Elem = f64> + Send + Sync + Sized + 'static {
+    fn take<D: Dimension>(master: &ArcArray<f64, D>) -> ArrayBase<Self, D>;
+}
+
+impl Store for OwnedRepr<f64> {
+    fn take<D: Dimension>(master: &ArcArray<f64, D>) -> ArrayBase<Self, D> {
+        master.to_owned()
+    }
+}
+
+impl Store for OwnedArcRepr<f64> {
+    fn take<D: Dimension>(master: &ArcArray<f64, D>) -> ArrayBase<Self, D> {
+        master.clone()
+    }
+}
+
+/// An interpolator (plus its statically typed twin for `interp_scalar`) that can answer ops
+/// through `&self` from any thread.
+trait Subject: Sync {
+    fn run(&self, op: &Op) -> Answer;
+}
+
+struct Subject1<Sd, S, S1>
+where
+    Sd: Store,
+    S: Interp1DStrategy<Sd, Sd, IxDyn>,
+    S1: Interp1DStrategy<Sd, Sd, Ix1>,
+{
+    dynamic: Interp1D<Sd, Sd, IxDyn, S>,
+    scalar: Option<Interp1D<Sd, Sd, Ix1, S1>>,
+}
+
+impl<Sd, S, S1> Subject for Subject1<Sd, S, S1>
+where
+    Sd: Store,
+    S: Interp1DStrategy<Sd, Sd, IxDyn> + Sync,
+    S1: Interp1DStrategy<Sd, Sd, Ix1> + Sync,
+{
+    fn run(&self, op: &Op) -> Answer {
+        let dy = &self.dynamic;
+        capture(|| match op.entry {
+            Entry::Scalar => {
+                let sc = self.scalar.as_ref().expect("harness: no scalar twin");
+                from_value(sc.interp_scalar(op.qx[0]))
+            }
+            Entry::Interp => from_array(dy.interp(op.qx[0])),
+            Entry::InterpInto => {
+                let mut buf = poisoned(&op.buf);
+                let r = dy.interp_into(op.qx[0], buf.view_mut());
+                from_buffer(r, &buf)
+            }
+            Entry::Array => from_array(dy.interp_array(&dyn_query(&op.qshape, &op.qx))),
+            Entry::ArrayIx1 => from_array(dy.interp_array(&Array1::from(op.qx.clone()))),
+            Entry::ArrayInto => {
+                let mut buf = poisoned(&op.buf);
+                let r = dy.interp_array_into(&dyn_query(&op.qshape, &op.qx), buf.view_mut());
+                from_buffer(r, &buf)
+            }
+            Entry::ArrayIntoIx1 => {
+                let mut buf = poisoned(&op.buf);
+                let r = dy.interp_array_into(&Array1::from(op.qx.clone()), buf.view_mut());
+                from_buffer(r, &buf)
+            }
+        })
+    }
+}
+
+struct Subject2<Sd: Store> {
+    dynamic: Interp2D<Sd, Sd, Sd, IxDyn, Bilinear>,
+    scalar: Option<Interp2D<Sd, Sd, Sd, Ix2, Bilinear>>,
+}
+
+impl<Sd: Store> Subject for Subject2<Sd> {
+    fn run(&self, op: &Op) -> Answer {
+        let dy = &self.dynamic;
+        capture(|| match op.entry {
+            Entry::Scalar => {
+                let sc = self.scalar.as_ref().expect("harness: no scalar twin");
+                from_value(sc.interp_scalar(op.qx[0], op.qy[0]))
+            }
+            Entry::Interp => from_array(dy.interp(op.qx[0], op.qy[0])),
+            Entry::InterpInto => {
+                let mut buf = poisoned(&op.buf);
+                let r = dy.interp_into(op.qx[0], op.qy[0], buf.view_mut());
+                from_buffer(r, &buf)
+            }
+            Entry::Array => from_array(dy.interp_array(
+                &dyn_query(&op.qshape, &op.qx),
+                &dyn_query(&op.qshape, &op.qy),
+            )),
+            Entry::ArrayIx1 => from_array(dy.interp_array(
+                &Array1::from(op.qx.clone()),
+                &Array1::from(op.qy.clone()),
+            )),
+            Entry::ArrayInto => {
+                let mut buf = poisoned(&op.buf);
+                let r = dy.interp_array_into(
+                    &dyn_query(&op.qshape, &op.qx),
+                    &dyn_query(&op.qshape, &op.qy),
+                    buf.view_mut(),
+                );
+                from_buffer(r, &buf)
+            }
+            Entry::ArrayIntoIx1 => {
+                let mut buf = poisoned(&op.buf);
+                let r = dy.interp_array_into(
+                    &Array1::from(op.qx.clone()),
+                    &Array1::from(op.qy.clone()),
+                    buf.view_mut(),
+                );
+                from_buffer(r, &buf)
+            }
+        })
+    }
+}
+
+fn spline_builder<D: Dimension + ndarray::RemoveAxis>(
+    cfg: &Config,
+    boundary: Boundary,
+) -> Result<CubicSpline<f64, D>, String> {
+    let bc = match boundary {
+        Boundary::NotAKnot => BoundaryCondition::NotAKnot,
+        Boundary::Natural => BoundaryCondition::Natural,
+        Boundary::Clamped => BoundaryCondition::Clamped,
+        Boundary::Periodic => BoundaryCondition::Periodic,
+        Boundary::Individual => BoundaryCondition::Individual(
+            cfg.bounds
+                .clone()
+                .into_dimensionality::<D>()
+                .map_err(|e| format!("bounds dimensionality: {e}"))?,
+        ),
+    };
+    Ok(CubicSpline::new().extrapolate(cfg.extrapolate).boundary(bc))
+}
+
+fn build_with<Sd: Store>(cfg: &Config) -> Result<Box<dyn Subject>, String> {
+    let err = |e: ndarray_interp::BuilderError| format!("build failed: {e:?}");
+    let dim_err = |e: ndarray::ShapeError| format!("static twin: {e}");
+    match cfg.kind {
+        Kind::Linear => {
+            let strat = || Linear::new().extrapolate(cfg.extrapolate);
+            let dynamic = Interp1DBuilder::new(Sd::take(&cfg.data))
+                .x(Sd::take(&cfg.x))
+                .strategy(strat())
+                .build()
+                .map_err(err)?;
+            let scalar = if cfg.has_scalar() {
+                let flat = cfg.data.clone().into_dimensionality::<Ix1>().map_err(dim_err)?;
+                Some(
+                    Interp1DBuilder::new(Sd::take(&flat))
+                        .x(Sd::take(&cfg.x))
+                        .strategy(strat())
+                        .build()
+                        .map_err(err)?,
+                )
+            } else {
+                None
+            };
+            Ok(Box::new(Subject1 { dynamic, scalar }))
+        }
+        Kind::Spline(boundary) => {
+            let dynamic = Interp1DBuilder::new(Sd::take(&cfg.data))
+                .x(Sd::take(&cfg.x))
+                .strategy(spline_builder::<IxDyn>(cfg, boundary)?)
+                .build()
+                .map_err(err)?;
+            let scalar = if cfg.has_scalar() {
+                let flat = cfg.data.clone().into_dimensionality::<Ix1>().map_err(dim_err)?;
+                Some(
+                    Interp1DBuilder::new(Sd::take(&flat))
+                        .x(Sd::take(&cfg.x))
+                        .strategy(spline_builder::<Ix1>(cfg, boundary)?)
+                        .build()
+                        .map_err(err)?,
+                )
+            } else {
+                None
+            };
+            Ok(Box::new(Subject1 { dynamic, scalar }))
+        }
+        Kind::Bilinear => {
+            let strat = || Bilinear::new().extrapolate(cfg.extrapolate);
+            let dynamic = Interp2DBuilder::new(Sd::take(&cfg.data))
+                .x(Sd::take(&cfg.x))
+                .y(Sd::take(&cfg.y))
+                .strategy(strat())
+                .build()
+                .map_err(err)?;
+            let scalar = if cfg.has_scalar() {
+                let flat = cfg.data.clone().into_dimensionality::<Ix2>().map_err(dim_err)?;
+                Some(
+                    Interp2DBuilder::new(Sd::take(&flat))
+                        .x(Sd::take(&cfg.x))
+                        .y(Sd::take(&cfg.y))
+                        .strategy(strat())
+                        .build()
+                        .map_err(err)?,
+                )
+            } else {
+                None
+            };
+            Ok(Box::new(Subject2 { dynamic, scalar }))
+        }
+    }
+}
+
+fn build(cfg: &Config) -> Result<Box<dyn Subject>, String> {
+    if cfg.shared {
+        build_with::<OwnedArcRepr<f64>>(cfg)
+    } else {
+        build_with::<OwnedRepr<f64>>(cfg)
+    }
+}
+
+// ---------------------------------------------------------------------------------------------
+// operation generator
+
+fn gen_in_range(rng: &mut Rng, axis: &ArcArray1<f64>) -> f64 {
+    let (lo, hi) = (axis[0], axis[axis.len() - 1]);
+    match rng.below(10) {
+        0 => axis[rng.below(axis.len())],
+        1 => {
+            if rng.chance(0.5) {
+                lo
+            } else {
+                hi
+            }
+        }
+        _ => rng.uniform(lo, hi).clamp(lo, hi),
+    }
+}
+
+fn gen_any(rng: &mut Rng, axis: &ArcArray1<f64>) -> f64 {
+    let (lo, hi) = (axis[0], axis[axis.len() - 1]);
+    match rng.below(100) {
+        0..=64 => gen_in_range(rng, axis),
+        65..=74 => lo - rng.uniform(0.01, 3.0),
+        75..=84 => hi + rng.uniform(0.01, 3.0),
+        85..=87 => hi + 1e-9,
+        88..=89 => lo - 1e-9,
+        90..=95 => f64::NAN,
+        96..=97 => f64::INFINITY,
+        _ => f64::NEG_INFINITY,
+    }
+}
+
+fn wrong_shape(rng: &mut Rng, good: &[usize]) -> Vec<usize> {
+    loop {
+        let mut s = good.to_vec();
+        let pick = rng.below(4);
+        if s.is_empty() || pick == 0 {
+            s.push(rng.range(1, 2));
+        } else {
+            let i = rng.below(s.len());
+            match pick {
+                1 => s[i] += 1,
+                2 => s[i] = if s[i] > 0 { s[i] - 1 } else { 2 },
+                _ => {
+                    s.remove(i);
+                }
+            }
+        }
+        if s != good {
+            return s;
+        }
+    }
+}
+
+fn gen_op(rng: &mut Rng, cfg: &Config) -> Op {
+    let two_d = cfg.kind == Kind::Bilinear;
+    let entry = loop {
+        let e = match rng.below(16) {
+            0 | 1 => Entry::Scalar,
+            2 | 3 => Entry::Interp,
+            4..=6 => Entry::InterpInto,
+            7 | 8 => Entry::Array,
+            9 | 10 => Entry::ArrayIx1,
+            11..=13 => Entry::ArrayInto,
+            _ => Entry::ArrayIntoIx1,
+        };
+        if e != Entry::Scalar || cfg.has_scalar() {
+            break e;
+        }
+    };
+    let qshape: Vec<usize> = match entry {
+        Entry::Scalar | Entry::Interp | Entry::InterpInto => Vec::new(),
+        Entry::ArrayIx1 | Entry::ArrayIntoIx1 => vec![rng.range(0, 5)],
+        Entry::Array | Entry::ArrayInto => match rng.below(3) {
+            0 => Vec::new(),
+            1 => vec![rng.range(0, 5)],
+            _ => {
+                let lowest = usize::from(!rng.chance(0.1));
+                vec![rng.range(lowest, 3), rng.range(1, 3)]
+            }
+        },
+    };
+    let count: usize = qshape.iter().product();
+    let tame = rng.chance(0.6);
+    let mut qx = Vec::with_capacity(count);
+    let mut qy = Vec::new();
+    for _ in 0..count {
+        qx.push(if tame {
+            gen_in_range(rng, &cfg.x)
+        } else {
+            gen_any(rng, &cfg.x)
+        });
+        if two_d {
+            // a bad x with a good y and vice versa must both occur
+            qy.push(if tame || rng.chance(0.5) {
+                gen_in_range(rng, &cfg.y)
+            } else {
+                gen_any(rng, &cfg.y)
+            });
+        }
+    }
+    let mut good = qshape.clone();
+    good.extend_from_slice(cfg.trailing());
+    let wrong_buf = entry.takes_buffer() && rng.chance(0.2);
+    let buf = if wrong_buf {
+        wrong_shape(rng, &good)
+    } else {
+        good
+    };
+    Op {
+        entry,
+        qshape,
+        qx,
+        qy,
+        buf,
+        wrong_buf,
+    }
+}
+
+/// What the crate's documentation promises for the reference answer, independent of history:
+/// `None` when the answer is as promised, otherwise a description of the broken promise.
+fn sanity(cfg: &Config, op: &Op, answer: &Answer) -> Option<&'static str> {
+    let inside = |axis: &ArcArray1<f64>, q: f64| axis[0] <= q && q <= axis[axis.len() - 1];
+    let all_inside = op.qx.iter().all(|&q| inside(&cfg.x, q))
+        && op.qy.iter().all(|&q| inside(&cfg.y, q));
+    let is_ok = matches!(answer, Answer::Ok { .. });
+    if op.wrong_buf && is_ok {
+        return Some("a wrongly shaped buffer was accepted");
+    }
+    if !op.wrong_buf && all_inside && !is_ok {
+        return Some("in-range queries with a correct buffer must succeed");
+    }
+    let array_with_wrong_buf = op.wrong_buf && !op.entry.is_single();
+    if !cfg.extrapolate
+        && !all_inside
+        && !array_with_wrong_buf
+        && !matches!(answer, Answer::Err { .. })
+    {
+        return Some("out-of-range query without extrapolation must be OutOfBounds");
+    }
+    None
+}
+
+// ---------------------------------------------------------------------------------------------
+// replays
+
+struct Mismatch {
+    replay: char,
+    op: usize,
+    got: Answer,
+}
+
+fn shuffle(rng: &mut Rng, v: &mut [usize]) {
+    for i in (1..v.len()).rev() {
+        v.swap(i, rng.below(i + 1));
+    }
+}
+
+/// runs `plan[j]` three times on thread `j`, all threads released together; returns the number
+/// of executed ops and every answer that differed from the reference
+fn replay_concurrent(
+    subject: &dyn Subject,
+    ops: &[Op],
+    expected: &[Answer],
+    plan: &[Vec<usize>],
+) -> (usize, Vec<Mismatch>) {
+    let barrier = Barrier::new(plan.len());
+    let barrier = &barrier;
+    let mut executed = 0;
+    let mut bad = Vec::new();
+    std::thread::scope(|scope| {
+        let handles: Vec<_> = plan
+            .iter()
+            .map(|seq| {
+                scope.spawn(move || {
+                    let mut count = 0;
+                    let mut bad = Vec::new();
+                    barrier.wait();
+                    for _ in 0..3 {
+                        for &i in seq {
+                            let got = subject.run(&ops[i]);
+                            count += 1;
+                            if got != expected[i] {
+                                bad.push(Mismatch {
+                                    replay: 'C',
+                                    op: i,
+                                    got,
+                                });
+                            }
+                        }
+                    }
+                    (count, bad)
+                })
+            })
+            .collect();
+        for (j, h) in handles.into_iter().enumerate() {
+            match h.join() {
+                Ok((count, mut b)) => {
+                    executed += count;
+                    bad.append(&mut b);
+                }
+                Err(_) => bad.push(Mismatch {
+                    replay: 'C',
+                    op: plan[j].first().copied().unwrap_or(0),
+                    got: Answer::Panic("harness: replay thread died".into()),
+                }),
+            }
+        }
+    });
+    (executed, bad)
+}
+
+#[derive(Default)]
+struct Stats {
+    executed: usize,
+    failures: usize,
+    ok: usize,
+    err: usize,
+    panic: usize,
+    scalar_ops: usize,
+    rejected_buffers: usize,
+}
+
+fn run_history(idx: usize, rng: &mut Rng, stats: &mut Stats) {
+    let cfg = gen_config(rng);
+    let n_ops = rng.range(20, 200);
+    let ops: Vec<Op> = (0..n_ops).map(|_| gen_op(rng, &cfg)).collect();
+    let threads = [2usize, 3, 4, 8, 16][rng.below(5)];
+    let storage = if cfg.shared { "shared" } else { "owned" };
+    let mut failures = 0usize;
+    let fail = |failures: &mut usize, replay: char, op: usize, expected: &str, got: &str| {
+        *failures += 1;
+        println!(
+            "FAIL history={idx} replay={replay} op={} expected={expected} got={got}",
+            ops[op].describe(op)
+        );
+    };
+
+    // reference answers: one fresh interpolator per op
+    let mut expected = Vec::with_capacity(n_ops);
+    for (i, op) in ops.iter().enumerate() {
+        let answer = match build(&cfg) {
+            Ok(fresh) => fresh.run(op),
+            Err(e) => Answer::Panic(format!("harness: {e}")),
+        };
+        if let Some(promise) = sanity(&cfg, op, &answer) {
+            fail(
+                &mut failures,
+                'R',
+                i,
+                &promise.replace(' ', "_"),
+                &answer.show(),
+            );
+        }
+        match answer {
+            Answer::Ok { .. } => stats.ok += 1,
+            Answer::Err { .. } => stats.err += 1,
+            Answer::Panic(_) => stats.panic += 1,
+        }
+        stats.scalar_ops += usize::from(op.entry == Entry::Scalar);
+        stats.rejected_buffers += usize::from(op.wrong_buf);
+        expected.push(answer);
+    }
+
+    match build(&cfg) {
+        Err(e) => fail(&mut failures, 'A', 0, "a_built_interpolator", &e.replace(' ', "_")),
+        Ok(subject) => {
+            let subject: &dyn Subject = subject.as_ref();
+            let mut bad = Vec::new();
+            // A: original order
+            for (i, op) in ops.iter().enumerate() {
+                let got = subject.run(op);
+                stats.executed += 1;
+                if got != expected[i] {
+                    bad.push(Mismatch {
+                        replay: 'A',
+                        op: i,
+                        got,
+                    });
+                }
+            }
+            // B: random permutation, same object
+            let mut order: Vec<usize> = (0..n_ops).collect();
+            shuffle(rng, &mut order);
+            for &i in &order {
+                let got = subject.run(&ops[i]);
+                stats.executed += 1;
+                if got != expected[i] {
+                    bad.push(Mismatch {
+                        replay: 'B',
+                        op: i,
+                        got,
+                    });
+                }
+            }
+            // C: same object shared by threads; round-robin split, then contiguous chunks
+            let round_robin: Vec<Vec<usize>> = (0..threads)
+                .map(|j| (j..n_ops).step_by(threads).collect())
+                .collect();
+            let chunk = n_ops.div_ceil(threads);
+            let chunks: Vec<Vec<usize>> = (0..threads)
+                .map(|j| ((j * chunk).min(n_ops)..((j + 1) * chunk).min(n_ops)).collect())
+                .collect();
+            for plan in [&round_robin, &chunks] {
+                let (count, mut b) = replay_concurrent(subject, &ops, &expected, plan);
+                stats.executed += count;
+                bad.append(&mut b);
+            }
+            for m in bad {
+                fail(
+                    &mut failures,
+                    m.replay,
+                    m.op,
+                    &expected[m.op].show(),
+                    &m.got.show(),
+                );
+            }
+        }
+    }
+
+    println!(
+        "hist kind={} storage={storage} ops={n_ops} threads={threads} ok={}",
+        cfg.describe(),
+        u8::from(failures == 0)
+    );
+    stats.failures += failures;
+}
+
+pub fn main(seed: u64, n: usize) {
+    static_assertions();
+    let mut rng = Rng(seed);
+    let mut stats = Stats::default();
+    for idx in 0..n {
+        run_history(idx, &mut rng, &mut stats);
+    }
+    println!(
+        "STATS reference_ok={} reference_err={} reference_panic={} scalar_ops={} rejected_buffer_ops={}",
+        stats.ok, stats.err, stats.panic, stats.scalar_ops, stats.rejected_buffers
+    );
+    println!(
+        "SUMMARY histories={n} ops={} failures={}",
+        stats.executed, stats.failures
+    );
 }
